@@ -209,6 +209,11 @@ func runStream(p *connPair, dir string, writes []int, bufs []int) *streamResult 
 		default:
 			res.wrote = append(res.wrote, b...)
 		}
+		// net.Conn: an implementation must not retain the slice passed to
+		// Write; the caller reuses its buffer as soon as Write has returned
+		for i := range b {
+			b[i] = 0xEE
+		}
 	}
 	p.closeWrite(dir)
 
